@@ -31,6 +31,10 @@ class A2(A):
         raise TypeError("unprintable exception")
 
 
+class A3(A, TimeoutError):
+    """A caught exception that is also a TimeoutError (socket / asyncio.timeout / wait_for inside the function)."""
+
+
 class B(Exception):
     pass
 
@@ -39,7 +43,7 @@ class C(Exception):
     pass
 
 
-KINDS = ("ok", "caught", "sub", "other", "cancelled", "base", "group", "unprintable")
+KINDS = ("ok", "caught", "sub", "other", "cancelled", "base", "group", "unprintable", "timeout")
 CATCHING = (
     ("class A", lambda: A),
     ("tuple (A,)", lambda: (A,)),
@@ -91,15 +95,22 @@ class C14(Prop):
         profile = profile.removesuffix("-deep")
         is_async = profile != "sync"
         limit = 1 + s.draw(9 if deep else 4, "limit")
+        # the limit may be given as a float (a configuration value) or as infinity ("retry until it works")
+        limit_form = s.weighted((8, 1, 1), "limit-form")
         ck = s.draw(len(CATCHING), "catching")
         catching_name, catching_make = CATCHING[ck]
         dk = s.draw(7, "delay")  # none, float, int, callable, float, float zero, int zero
         ncalls = 1 + (s.weighted((3, 1), "ncalls") if is_async else 0)  # overlapping invocations of ONE wrapped function
+        # re-entrancy: the wrapped function itself calls the wrapper again (a retried operation built on the same retried helper);
+        # then the second invocation is made from inside the first attempt of the first one instead of by a task of its own
+        nested = profile != "async-sweep" and s.chance(1, 6, "nested-call")
+        if nested:
+            ncalls = 2
         table = [(0, 1, 2, 3)[s.draw(4, "dly")] * 32 for _ in range(limit + 1)]  # callable delay table (grid steps, 0 allowed)
         calls = []
         for ci in range(ncalls):
             seq_len = s.draw(limit + 3, "seq-len")
-            seq = [KINDS[s.weighted((4, 10, 4, 2, 2, 2, 1, 1), "outcome")] for _ in range(seq_len)]
+            seq = [KINDS[s.weighted((4, 10, 4, 2, 2, 2, 1, 1, 1), "outcome")] for _ in range(seq_len)]
             durs = [(0, 0, 64, -1)[s.draw(4, "dur")] if is_async else 0 for _ in range(seq_len + 1)]
             calls.append({"outcomes": seq, "durations": durs})
         delay_name = ("none", "float", "int", "callable", "float", "float-zero", "int-zero")[dk]
@@ -108,9 +119,9 @@ class C14(Prop):
         pre_cancelled = is_async and profile != "async-sweep" and s.chance(1, 6, "pre-cancelled")
         # the wrapped callable need not be a plain function: functools.partial (no __name__), or a callable instance
         callable_kind = s.weighted((4, 1, 1, 1), "callable-kind")
-        sim.program = {"variant": profile, "limit": limit, "catching": catching_name, "delay": delay_name,
+        sim.program = {"variant": profile, "limit": limit, "limit_given_as": ("int", "float", "inf")[limit_form], "catching": catching_name, "delay": delay_name,
                        "calls": calls, "delay_table": table, "extra_kwargs": sorted(extra_kwargs),
-                       "caller_swallowed_a_cancel_before": int(pre_cancelled),
+                       "caller_swallowed_a_cancel_before": int(pre_cancelled), "second_call_made_from_inside_the_first": int(nested),
                        "wrapped_callable": ("function", "functools.partial", "callable instance", "sync facade whose __wrapped__ is async")[
                            callable_kind if not (is_async and callable_kind >= 2) else 1],
                        "cancel_at_iteration": sim.inject_choice if profile == "async-sweep" else 0}
@@ -125,7 +136,7 @@ class C14(Prop):
         for ci, spec in enumerate(calls):
             seq = spec["outcomes"]
             excs = [{"ok": None, "caught": A((ci, k)), "sub": A1((ci, k)), "other": B((ci, k)),
-                     "cancelled": asyncio.CancelledError(), "base": InjectedBase((ci, k)), "unprintable": A2((ci, k)),
+                     "cancelled": asyncio.CancelledError(), "base": InjectedBase((ci, k)), "unprintable": A2((ci, k)), "timeout": A3((ci, k)),
                      # a group made only of caught instances is itself caught only if ExceptionGroup is in the caught set
                      "group": ExceptionGroup("several", [A((ci, k)), A1((ci, k))])}[kind] for k, kind in enumerate(seq)]
             per.append({"seq": seq, "durs": spec["durations"], "excs": excs,
@@ -184,19 +195,37 @@ class C14(Prop):
                         await real_async_sleep(d * GRID)
                     elif d < 0:
                         await sim.pause(f"attempt{ci}.{k}")
+                    if nested and ci == 0 and k == 1:
+                        await nested_call()
                     return finish(ci, k)
                 finally:
                     rec[2] = sim.now
         else:
             def fn(*args, **kwargs):
-                ci = 0
+                ci = args[1] if len(args) > 1 and isinstance(args[1], int) and args[1] < len(per) else 0
                 p_ = per[ci]
                 k = len(p_["attempts"]) + 1
                 body_common(ci, k, args, kwargs)
-                p_["attempts"].append([k, sim.now, sim.now])
-                return finish(ci, k)
+                rec = [k, sim.now, sim.now]
+                p_["attempts"].append(rec)
+                try:
+                    if nested and ci == 0 and k == 1:
+                        out = per[1]["out"]
+                        try:
+                            r = wrapped("a", 1, kw="k", **extra_kwargs)
+                        except BaseException as exc:  # noqa: BLE001
+                            out["kind"], out["obj"] = ("cancelled" if isinstance(exc, asyncio.CancelledError) else "raised"), exc
+                        else:
+                            out["kind"], out["obj"] = "value", r
+                        out["at"] = sim.now
+                        sim.event("caller-outcome", 1, out["kind"])
+                    return finish(ci, k)
+                finally:
+                    rec[2] = sim.now
 
-        kw = {"limit": limit}
+        kw = {"limit": (limit, float(limit), float("inf"))[limit_form]}
+        # (with an infinite limit the model's bound is "never": every outcome sequence ends in a success or an uncaught error)
+        limit_model = 10 ** 9 if limit_form == 2 else limit
         if delay_arg is not None:
             kw["delay"] = delay_arg
         if catching_make is not None:
@@ -254,8 +283,23 @@ class C14(Prop):
             out["at"] = sim.now
             sim.event("caller-outcome", ci, out["kind"])
 
+        async def nested_call():
+            out = per[1]["out"]
+            try:
+                r = await wrapped("a", 1, kw="k", **extra_kwargs)
+            except asyncio.CancelledError as exc:
+                out["kind"], out["obj"] = "cancelled", exc
+                if per[1]["seq"] and "cancelled" not in per[1]["seq"]:
+                    raise  # (the enclosing task is being cancelled: not an outcome of the nested call)
+            except BaseException as exc:  # noqa: BLE001
+                out["kind"], out["obj"] = "raised", exc
+            else:
+                out["kind"], out["obj"] = "value", r
+            out["at"] = sim.now
+            sim.event("caller-outcome", 1, out["kind"])
+
         async def main():
-            tasks = [sim.loop.create_task(caller(ci)) for ci in range(ncalls)]
+            tasks = [sim.loop.create_task(caller(ci)) for ci in range(1 if nested else ncalls)]
             t = tasks[0]
             if profile == "async-sweep" and sim.inject_choice:
                 def inj():
@@ -314,7 +358,7 @@ class C14(Prop):
                 if kind in ("cancelled", "base"):
                     exp = ("cancelled" if kind == "cancelled" else "raised", exc)
                     break
-                if isinstance(exc, caught_types) and k - 1 < limit:
+                if isinstance(exc, caught_types) and k - 1 < limit_model:
                     if fixed_pause is not None:
                         exp_pauses.append(fixed_pause)
                     elif dk == 3:
